@@ -790,8 +790,15 @@ class C11(NlpCheck):
                 drop = sorted(i for i in (iT, it0) if i is not None)
                 xB = [v for i, v in enumerate(xv) if i not in drop]
                 if len(xB) != bB.nx_opti:
+                    # opti.x lists only variables that occur in f or g; whether a declared variable does can differ between the two
+                    # problems (a row that is constant for a fixed horizon). The DECLARED variables must differ by the horizon ones only.
+                    from .props2 import declared_nx
+                    nfree = (1 if dA['T'][0] == 'free' else 0) + (1 if dA['t0'][0] == 'free' else 0)
+                    if declared_nx(bA.opti) == declared_nx(bB.opti) + nfree:
+                        self.count("twin-skipped(active-sets-differ)")
+                        continue
                     self.slice_ok["restriction-to-fixed-time"] = False
-                    self.violation("free-time problem has %d decision variables, fixed-time one %d (+%d horizon variables expected)" % (bA.nx_opti, bB.nx_opti, len(drop)),
+                    self.violation("free-time problem declares %d decision variables, fixed-time one %d (+%d horizon variables expected)" % (declared_nx(bA.opti), declared_nx(bB.opti), nfree),
                                    {"desc": dA}, {"kind": "free-twin", "what": "nx"})
                     return
                 fA, gA, lA, uA = B.eval_nlp(bA, xv, pv)
@@ -1387,8 +1394,13 @@ class C08(SampleCheck):
             # otherwise just after the grid time (in floats `low` may fall on either side of a discontinuity)
             for _k in range(2):
                 tm = self.rng.choice(tg[:-1])
-                times.append(tm if desc['method']['kind'] == 'ss' and desc['method']['grid']['kind'] == 'uniform' else tm + T * Fr(1, 2 ** 20))
+                times.append(tm + T * Fr(1, 2 ** 20) if tm != t0 else tm)     # never exactly ON an interior grid time: controls jump there
             times = [t for t in times if t <= t0 + T]
+            # a random interior time can coincide with an integrator grid time (T*k/16 with N*M in {2,4,8,16}): at an arbitrary
+            # (dynamically infeasible) point the trajectory jumps there and `low` on doubles may fall on either side: step off it
+            if True:
+                interior = [Fr(g) for g in tg[1:-1]]
+                times = [t + T * Fr(1, 2 ** 20) if (t != t0 and t != t0 + T and any(abs(t - g) <= T * Fr(1, 2 ** 30) for g in interior)) else t for t in times]
             self.driver.send(Mo.desc_lines(desc)); self.driver.send(Mo.point_lines(desc, phys))
             self.record_case(desc, True, {"method": desc['method'], "sampler_expr": Mo.E.to_tokens(e), "times": [str(t) for t in times[:3]]})
             for t in times:
